@@ -56,14 +56,16 @@ func (o Operand) String() string {
 }
 
 type EmitOp struct {
-	Kind   string // Emit | Sjmp | Sref | Xjmp | Xref | Link | Helper | Call
-	Mnem   string
-	Ops    []Operand
-	Label  string       // Sjmp/Sref/Link: label text
-	LblObj types.Object // label constant object, if the label is a named constant
-	Callee types.Object // Helper/Call
-	Call   *ast.CallExpr
-	Pos    token.Pos
+	Kind    string // Emit | Sjmp | Sref | Xjmp | Xref | Link | Helper | Call
+	Mnem    string
+	Ops     []Operand
+	Label   string       // Sjmp/Sref/Link: label text
+	LblObj  types.Object // label constant object, if the label is a named constant
+	Callee  types.Object // Helper/Call
+	Call    *ast.CallExpr
+	Pos     token.Pos
+	ArgVals []envVal // Helper: argument values under the caller's bindings
+	ArgOK   []bool
 }
 
 func (e EmitOp) String() string {
